@@ -2,7 +2,7 @@
 
 use crate::common::*;
 use parity_scale_codec::{Encode, EncodeAppend, EncodeLike, Ref};
-use psc_bridge::{derived::Named, Modeled};
+use psc_bridge::{derived::{Marker, MarkerPair, Named}, Modeled};
 use psc_model::{
 	dec::dec_compact,
 	enc::{compact_bytes, ref_encode},
@@ -253,7 +253,11 @@ pub fn tape_checks(_ctx: &Ctx) -> Vec<(&'static str, Box<CheckFn<'_>>)> {
 	vec![
 		(
 			"histories",
-			Box::new(|g: &mut Gen, stats: &mut Stats| match g.below(6) {
+			Box::new(|g: &mut Gen, stats: &mut Stats| match g.below(9) {
+				// items that are zero-sized in memory but not on the wire (and a plain zero-sized one)
+				6 => history::<Marker>(g, stats),
+				7 => history::<MarkerPair>(g, stats),
+				8 => history::<[Marker; 2]>(g, stats),
 				0 => history::<u8>(g, stats),
 				1 => history::<u32>(g, stats),
 				2 => history::<String>(g, stats),
@@ -308,7 +312,7 @@ pub fn run(ctx: &Ctx) -> (Level, Report) {
 		Level {
 			level: "exploration",
 			rule: "histories of 1..5 append_or_new calls checked after every step against a model vector: Vec and VecDeque targets; items u8, u32, \
-String, Vec<u8>, a derived struct, a tuple; item forms &Vec<T>, Vec<T>, iter::once, Box<T>, Ref<T,T>, &[T], &&T; batch sizes 0..N; starts: empty \
+String, Vec<u8>, a derived struct, a tuple, and types that are zero-sized in memory with a non-empty encoding (a one-variant enum, a pair and an array of it); item forms &Vec<T>, Vec<T>, iter::once, Box<T>, Ref<T,T>, &[T], &&T; batch sizes 0..N; starts: empty \
 input or an encoded sequence with its count on / next to 63|64 and 2^14-1|2^14. Zero-sized items: start counts around 2^30 and 2^32 and batches \
 whose ExactSizeIterator length exceeds 2^32; a combined count above u32::MAX must be an error. Invalid starts (non-canonical, truncated, \
 over-wide counts) must be rejected. Oracle: reference encoding of (model ++ items). Non-trivial = step changing the prefix width, a batch >= 2 \
